@@ -231,13 +231,25 @@ func generateChecked(desc string, workDir string) (src []byte, pkgName string, r
 		return src, pkgName, false, fmt.Errorf("package name %q is not derived from the interface name %q (letters and digits %q)", pkgName, tree.Name, want)
 	}
 	_ = pkg
-	// determinism
-	r2, rerr := runGenerator(desc, dir+"b")
+	// determinism; every other time the second run finds an older, longer output of the same name in place
+	// (the usual go:generate situation): what it leaves behind must still be exactly this source
+	stale := n%2 == 0
 	defer os.RemoveAll(dir + "b")
+	if stale {
+		os.MkdirAll(dir+"b", 0o755)
+		old := append(append([]byte(nil), src...), []byte("\n// an older, longer version of this file\nfunc staleTail() { this is not Go }\n")...)
+		if werr := os.WriteFile(filepath.Join(dir+"b", fname), old, 0o644); werr != nil {
+			return src, pkgName, false, fmt.Errorf("HARNESS: %v", werr)
+		}
+	}
+	r2, rerr := runGenerator(desc, dir+"b")
 	if rerr != nil {
 		return src, pkgName, false, rerr
 	}
 	if !bytes.Equal(r2.files[fname], src) {
+		if stale {
+			return src, pkgName, false, fmt.Errorf("running the generator again in a directory that holds an older, longer %s left %d bytes there, a fresh run writes %d (same input, different bytes; exit %d)", fname, len(r2.files[fname]), len(src), r2.exit)
+		}
 		return src, pkgName, false, fmt.Errorf("running the generator twice on the same input gave different bytes")
 	}
 	return src, pkgName, false, nil
